@@ -936,6 +936,77 @@ wait:
 	}
 	cases += int64(concRuns)
 
+	// FAMILY "map cache, concurrent": NonExpiringMapCache of capacity 2 and 8 x {2, 8, 16} goroutines x 20000 operations each
+	// (Put / Get / Delete over 12 keys, the value names its key). Schedule-independent oracle: no goroutine panics, all
+	// finish within 20 s, every hit returns a value put under that very key, and when all have finished the keys a Get
+	// still finds number at most the capacity and exactly Stats().Size. (An unsynchronised map write is a fatal error
+	// of the runtime: the process dies, which the check reports with the runtime's message.)
+	if !hung {
+		for _, capacity := range []int{2, 8} {
+			for _, W := range []int{2, 8, 16} {
+				cases++
+				c := NewNonExpiringMapCache[int, int](capacity)
+				problems := make(chan string, W)
+				var wg sync.WaitGroup
+				for w := 0; w < W; w++ {
+					wg.Add(1)
+					go func(w int) {
+						defer wg.Done()
+						defer func() {
+							if r := recover(); r != nil {
+								problems <- fmt.Sprintf("goroutine %d panics: %v", w, r)
+							}
+						}()
+						x := uint64(w*7919 + capacity)
+						for i := 0; i < 20000; i++ {
+							r := vcSplitmix(&x)
+							key := int(r % 12)
+							switch (r >> 8) % 4 {
+							case 0, 1:
+								c.Put(key, key*1000+w)
+							case 2:
+								if v, ok := c.Get(key); ok && v/1000 != key {
+									problems <- fmt.Sprintf("Get(%d) returns %d, a value put under key %d", key, v, v/1000)
+									return
+								}
+							default:
+								c.Delete(key)
+							}
+						}
+					}(w)
+				}
+				done := make(chan struct{})
+				go func() { wg.Wait(); close(done) }()
+				msg := ""
+				select {
+				case <-done:
+					select {
+					case msg = <-problems:
+					default:
+						found := 0
+						for k := 0; k < 12; k++ {
+							if _, ok := c.Get(k); ok {
+								found++
+							}
+						}
+						if size := int(c.Stats().Size()); found > capacity || found != size {
+							msg = fmt.Sprintf("after all goroutines finished %d keys are found, Stats().Size is %d, capacity %d", found, size, capacity)
+						}
+					}
+				case <-time.After(20 * time.Second):
+					msg = "not finished after 20 s"
+					exhaustive = false
+				}
+				if msg != "" {
+					failedCases++
+					if len(failures) < 5 {
+						failures = append(failures, fmt.Sprintf("NonExpiringMapCache capacity %d, %d goroutines x 20000 operations: %s", capacity, W, msg))
+					}
+				}
+			}
+		}
+	}
+
 	// FAMILY "interface keys": both caches instantiated with K = any over the keys {nil, "a", 1} (a nil interface is a
 	// comparable key like any other), capacities {1, 2}, every sequence of length <= 4 over {Put k, Get k, Delete k}.
 	// Oracle: no panic; a Get returns a miss or the value of the last Put of that key not followed by a Delete of it;
@@ -1025,7 +1096,7 @@ wait:
 	if failures == nil {
 		failures = []string{}
 	}
-	bound := fmt.Sprintf("bound %s: {Sieve, NonExpiringMapCache}[int,int] x capacity {-1,0,1,2,3} x every sequence of length 0..%d over {Put,Get,Delete} x keys {1,2,3,4} (checked after every step, closed by Get(1..4)); plus Sieve capacity {2,3} x {2,4,8} goroutines x %d rounds of fixed 200-operation scripts over 4 keys (schedule-independent checks); plus both caches with K = any over keys {nil, \"a\", 1}, capacities {1,2}, every sequence of length <= 4", boundName, maxLen, rounds)
+	bound := fmt.Sprintf("bound %s: {Sieve, NonExpiringMapCache}[int,int] x capacity {-1,0,1,2,3} x every sequence of length 0..%d over {Put,Get,Delete} x keys {1,2,3,4} (checked after every step, closed by Get(1..4)); plus Sieve capacity {2,3} x {2,4,8} goroutines x %d rounds of fixed 200-operation scripts over 4 keys (schedule-independent checks); plus both caches with K = any over keys {nil, \"a\", 1}, capacities {1,2}, every sequence of length <= 4; plus NonExpiringMapCache capacity {2,8} x {2,8,16} goroutines x 20000 operations over 12 keys", boundName, maxLen, rounds)
 	res := map[string]any{"name": "cache", "bound": bound, "cases": cases, "exhaustive": exhaustive, "failures": failures}
 	out, _ := json.Marshal(res)
 	fmt.Println("BOUNDED-RESULT " + string(out))
